@@ -379,6 +379,9 @@ def extra_trees(tier):
                 rep.harness_error(f"Float64 query unknown for {b['tree'][:160]}")
             else:
                 rep.violation({"name": "fp tree", "kind": "ieee-not-equal"}, {"property": "C07", "part": "b-float64", **b})
+        cc_stats, cc_problems = crosscheck_cvc5(25 if tier == "quick" else 120)
+        for p in cc_problems:
+            rep.harness_error("solver disagreement: " + p)
         st_total, st_bad = run_statements(tier, seed)
         for b in st_bad:
             rep.violation({"name": "statement", "kind": "statement-not-equivalent"},
@@ -388,7 +391,7 @@ def extra_trees(tier):
             "disagreements_checked": confirmed + len(st_bad) + coverage.get("violations_found_by_solver", 0),
             "expression_trees": {**total, "solver_s": round(total["solver_s"], 2), "per_depth": per_depth,
                                  "literals": "{0,1,2,0.0,1.0,1.5,true,false}", "variables": "x,y:int u,v:float p,q:bool ia:int[<=3] fa:double[<=3]"},
-            "statement_trees": st_total, "float64_exact_rules": fp_stats,
+            "statement_trees": st_total, "float64_exact_rules": fp_stats, "cvc5_crosscheck": cc_stats,
             "tree_counterexample_samples": samples,
         }
 
@@ -561,3 +564,66 @@ def run_fp_exact():
                 elif r == z3.unknown:
                     bad.append({"tree": repr(t), "optimised": repr(t2), "unknown": True})
     return {"trees": n, "queries": q, "wall_s": round(time.time() - t0, 1)}, bad
+
+
+# ------------------------------------------------------------------ second solver
+
+
+def crosscheck_cvc5(limit=40):
+    """The same tree-equivalence queries answered by cvc5 (binary on PATH): verdicts must agree.
+    A sample of the depth-2 trees whose claim does not simplify to true (so a real query exists)."""
+    import shutil
+    import subprocess
+    import tempfile
+
+    from tensora.ir._peephole import peephole_expression
+
+    if shutil.which("cvc5") is None:
+        return {"skipped": "cvc5 binary not found"}, []
+    env = trees.Env()
+    lv = trees.leaves()
+    pool1 = trees.merge(lv, trees.grow(lv))
+    n = agree = unknown = 0
+    problems = []
+    for k, t in enumerate(trees.grow_iter(pool1)):
+        if k % 997 != 0:
+            continue
+        t2 = peephole_expression(t)
+        if t2 == t:
+            continue
+        ta, a, sa, aa = trees.meaning(t, env)
+        try:
+            tb, b, sb, ab = trees.meaning(t2, env)
+        except (TypeError, KeyError):
+            continue
+        claim = sym.simp_bool(sym.bimplies(sa, band(sb, trees.values_equal(ta, a, tb, b))))
+        if claim is True:
+            continue
+        s = z3.Solver()
+        s.set("timeout", 20000)
+        for c in env.pre:
+            s.add(c)
+        s.add(z3.Not(zb(claim)))
+        rz = str(s.check())
+        with tempfile.NamedTemporaryFile("w", suffix=".smt2", delete=False) as f:
+            f.write("(set-logic ALL)\n" + s.to_smt2())
+            path = f.name
+        try:
+            out = subprocess.run(["cvc5", "--tlimit=20000", path], capture_output=True, text=True, timeout=60)
+            rc = out.stdout.strip().splitlines()[0] if out.stdout.strip() else "error"
+            if "(error" in out.stdout or out.stderr.strip():
+                rc = "error"
+        except subprocess.TimeoutExpired:
+            rc = "unknown"
+        finally:
+            os.unlink(path)
+        n += 1
+        if rc in ("unknown", "error") or rz == "unknown":
+            unknown += 1
+        elif rc == rz:
+            agree += 1
+        else:
+            problems.append(f"z3 says {rz}, cvc5 says {rc} for {repr(t)[:200]}")
+        if n >= limit:
+            break
+    return {"queries": n, "agree": agree, "inconclusive": unknown}, problems
